@@ -191,6 +191,17 @@ func (p *Propagator) beaconsPerInterface(
 // shouldIgnore indicates whether a beacon should not be sent on the egress
 // interface because it creates a loop.
 func (p *Propagator) shouldIgnore(bseg beacon.Beacon, intf *ifstate.Interface) bool {
+	// The propagated beacon contains the local AS entry between the received AS
+	// entries and the neighbor, so the local AS takes part in the loop check.
+	if !p.IA.IsZero() && bseg.Segment != nil {
+		entries := make([]seg.ASEntry, 0, len(bseg.Segment.ASEntries)+1)
+		entries = append(entries, bseg.Segment.ASEntries...)
+		entries = append(entries, seg.ASEntry{Local: p.IA})
+		bseg = beacon.Beacon{
+			Segment: &seg.PathSegment{Info: bseg.Segment.Info, ASEntries: entries},
+			InIfID:  bseg.InIfID,
+		}
+	}
 	if err := beacon.FilterLoop(bseg, intf.TopoInfo().IA, p.AllowIsdLoop); err != nil {
 		return true
 	}
